@@ -34,7 +34,8 @@ ASSUMPTIONS = [
 REQUIRED = {"fed_evaluations": 5000, "best_eval_checks": 5000,
             "e2e_runs_judged": 100}
 MIN_NONTRIVIAL = {"quick": 100, "thorough": 500}
-PLAN = [("fed", 1600, 24000), ("e2e", 500, 8000), ("e2e_nan", 500, 8000), ("cross", 300, 6000)]
+PLAN = [("fed", 1600, 24000), ("e2e", 500, 8000), ("e2e_nan", 500, 8000),
+        ("e2e_tol", 300, 4000), ("cross", 300, 6000)]
 
 TOL = 1e-8
 
@@ -162,6 +163,22 @@ def run_case(case):
     rng = e2e.rng_of(ID, case)
     if case["fam"] == "cross":
         spec, _src = e2e.cross_spec(ID, case)
+    elif case["fam"] == "e2e_tol":
+        # non-default feasibility tolerances (0, tiny, large) on problems
+        # whose solution lies on a curved constraint approached from
+        # outside: exactly feasible and barely infeasible points coexist
+        n = int(rng.integers(2, 4))
+        spec = gen.general(rng, n=n, con="nl", maxfev=(60, 160),
+                           obj_kinds=("lin", "quad", "lin"),
+                           opt_allow=("scale", "radius"),
+                           with_callback=False, bound_patterns="none")
+        x0 = np.asarray(spec["x0"], float)
+        spec["nl"] = gen.nonlinear_constraints(
+            rng, n, x0, count=1, forms=("nlc",), kinds=("upper",),
+            comp_kinds=("ball", "quad"))
+        spec["options"]["feasibility_tol"] = float(rng.choice(
+            [0.0, 0.0, 1e-14, 1e-3]))
+        spec.pop("scribble", None)
     else:
         spec = gen.general(rng, with_faults=(case["fam"] == "e2e_nan"),
                            maxfev=(20, 100), fun_none=0.05,
